@@ -64,7 +64,7 @@ class Calculator:
         :param time_step: (seconds) If > 0 then record TrajectoryData at least this frequently
         """
         trajectory_range = PreferredUnits.distance(trajectory_range)
-        if not trajectory_step:
+        if not trajectory_step or PreferredUnits.distance(trajectory_step).raw_value == 0:
             # need to use raw value in order to avoid unit conversion
             trajectory_step = trajectory_range.raw_value / 10.0
             # default unit for distance is Inch, therefore, specifying value directly in it
